@@ -316,8 +316,219 @@ func Run(c string) string {
 			st = strings.Join(es, ",")
 		}
 		return "ok " + optHex(ov, ook) + " " + optHex(iv, iok) + " " + st
+	case "history":
+		return runHistory(f)
 	}
 	panic("unknown case " + c)
+}
+
+func encCfg(c Cfg) string {
+	return lib.Bytes([]byte(c.In)) + "," + lib.Bytes([]byte(c.Out)) + "," + lib.Bytes([]byte(c.Format))
+}
+
+func decCfg(s string) Cfg {
+	f := strings.Split(s, ",")
+	return Cfg{string(lib.ParseBytes(f[0])), string(lib.ParseBytes(f[1])), string(lib.ParseBytes(f[2]))}
+}
+
+// HistoryCase builds a history case line: ops over i (Indexes on the original), r (ReadCounts on
+// the original), a (Allocator A on the original), c (clone the latest clone, or the original),
+// b (Allocator B on the latest clone).
+func HistoryCase(p Prog, a, b Cfg, ops []string) string {
+	return fmt.Sprintf("history %s %s %s %s", Encode(Strip(p)), encCfg(a), encCfg(b), strings.Join(ops, ","))
+}
+
+func interpOut(r *ir.Program, c Cfg, aliased bool) string {
+	it := eval.NewInterpreter()
+	x := big.NewInt(1)
+	it.Store(c.In, x)
+	if aliased {
+		it.Store(c.Out, x)
+	}
+	if err := it.Execute(r); err != nil {
+		return "err:" + interpErrClass(err)
+	}
+	v, ok := it.Load(c.Out)
+	return optHex(v, ok)
+}
+
+func runHistory(f []string) string {
+	p := Decode(f[1])
+	ca, cb := decCfg(f[2]), decCfg(f[3])
+	orig := ToIR(p)
+	var clone *ir.Program
+	for _, op := range strings.Split(f[4], ",") {
+		var err error
+		switch op {
+		case "i":
+			err = pass.Indexes(orig)
+		case "r":
+			err = pass.ReadCounts(orig)
+		case "a":
+			err = pass.Allocator{Input: ca.In, Output: ca.Out, Format: ca.Format}.Execute(orig)
+		case "c":
+			if clone == nil {
+				clone = orig.Clone()
+			} else {
+				clone = clone.Clone()
+			}
+		case "b":
+			err = pass.Allocator{Input: cb.In, Output: cb.Out, Format: cb.Format}.Execute(clone)
+		default:
+			panic("harness: bad history op " + op)
+		}
+		if err != nil {
+			return "err " + allocErrClass(err)
+		}
+	}
+	return "ok " + Encode(FromIR(clone)) + " " + encNames(clone.Temporaries) + " " +
+		Encode(FromIR(orig)) + " " + encNames(orig.Temporaries) + " " +
+		interpOut(clone, cb, false) + " " + interpOut(clone, cb, true)
+}
+
+// CheckHistory: the allocation of the clone satisfies the whole of C05 for configuration B whatever
+// ran on the original before; the original is what its own operations alone make of it.
+func CheckHistory(c, res string) string {
+	if strings.HasPrefix(res, "panic") {
+		return "history panicked: " + res
+	}
+	f := strings.Split(c, " ")
+	p := Decode(f[1])
+	ca, cb := decCfg(f[2]), decCfg(f[3])
+	if len(p) == 0 {
+		if res != "err empty" {
+			return "program without instructions must be refused, got " + res
+		}
+		return ""
+	}
+	if !strings.HasPrefix(res, "ok ") {
+		return "history on a non-empty unnamed program failed: " + res
+	}
+	g := strings.Split(res, " ")
+	// the clone, judged as a fresh allocation under B
+	if m := CheckAllocation(AllocCase(p, cb), "ok "+g[1]+" "+g[2], false); m != "" {
+		return "clone: " + m
+	}
+	// the original: untouched by the clone's allocation
+	want, wantTemps := Encode(Strip(p)), "-"
+	if strings.Contains(","+f[4]+",", ",a,") {
+		q, temps, err := Allocate(Strip(p), ca)
+		if err != nil {
+			return "fresh allocation under A failed: " + err.Error()
+		}
+		want, wantTemps = Encode(q), encNames(temps)
+		if m := CheckAllocation(AllocCase(p, ca), "ok "+g[3]+" "+g[4], false); m != "" {
+			return "original: " + m
+		}
+	}
+	if g[3] != want || g[4] != wantTemps {
+		return "the original program was changed by work on its clone: " + g[3] + " " + g[4]
+	}
+	distinct := cb.In != "" && cb.Out != "" && cb.In != cb.Out
+	for _, t := range decNames(g[2]) {
+		if t == cb.In || t == cb.Out {
+			distinct = false
+		}
+	}
+	if WellFormed(p) && distinct {
+		wantv := lib.Hex(ChainValues(p, big.NewInt(1))[p[len(p)-1].Out.Idx])
+		if g[5] != wantv || g[6] != wantv {
+			return fmt.Sprintf("interpreter on the clone: %s / %s, last chain element %s", g[5], g[6], wantv)
+		}
+	}
+	return ""
+}
+
+// Histories are the operation sequences of the history stream.
+var Histories = [][]string{
+	{"c", "b"}, {"i", "c", "b"}, {"r", "c", "b"}, {"a", "c", "b"}, {"i", "r", "a", "c", "b"},
+	{"c", "c", "b"}, {"c", "b", "c", "b"}, {"a", "c", "b", "c", "b"}, {"c", "b", "a"}, {"i", "c", "b", "a"},
+	{"c", "i", "b"}, {"c", "a", "b"}, {"a", "c", "c", "b"}, {"r", "c", "b", "i"},
+}
+
+// ---------------------------------------------------------------- neighbourhoods (hunt mode)
+
+// Perturb returns a program near p: one operand index or one shift amount changed, an instruction
+// made dead, or a value kept alive longer.
+func Perturb(r *lib.Rand, p Prog) Prog {
+	q := append(Prog{}, p...)
+	if len(q) == 0 {
+		return Prog{Ins{Kind: 'd', Out: Opd{Idx: 1}, X: Opd{Idx: 0}}}
+	}
+	earlier := func(t int) int { // 0 or the output of an instruction before t
+		if t == 0 || r.Chance(1, 4) {
+			return 0
+		}
+		return q[r.Intn(t)].Out.Idx
+	}
+	t := r.Intn(len(q))
+	switch r.Intn(6) {
+	case 0: // one operand index
+		if q[t].Kind == 'a' && r.Bool() {
+			q[t].Y.Idx = earlier(t)
+		} else {
+			q[t].X.Idx = earlier(t)
+		}
+	case 1: // one shift amount (or a double turned into a shift)
+		if q[t].Kind == 's' {
+			q[t].S = uint(r.Range(1, int(q[t].S)+3))
+		} else if q[t].Kind == 'd' {
+			q[t].Kind, q[t].S = 's', uint(r.Range(2, 5))
+		} else {
+			q[t].Y.Idx = q[t].X.Idx
+		}
+	case 2: // make instruction t dead: its readers read element 0 instead
+		for u := t + 1; u < len(q); u++ {
+			if q[u].X.Idx == q[t].Out.Idx {
+				q[u].X.Idx = 0
+			}
+			if q[u].Kind == 'a' && q[u].Y.Idx == q[t].Out.Idx {
+				q[u].Y.Idx = 0
+			}
+		}
+	case 3: // keep the value of instruction t alive until the end
+		last := len(q) - 1
+		if q[last].Kind == 'a' && t < last {
+			q[last].Y.Idx = q[t].Out.Idx
+		} else {
+			n := q[last].Out.Idx + 1
+			q = append(q, Ins{Kind: 'a', Out: Opd{Idx: n}, X: Opd{Idx: q[last].Out.Idx}, Y: Opd{Idx: q[t].Out.Idx}})
+		}
+	case 4: // drop the last instruction
+		if len(q) > 1 {
+			q = q[:len(q)-1]
+		}
+	case 5: // one more reader of the input at the end
+		last := q[len(q)-1].Out.Idx
+		q = append(q, Ins{Kind: 'a', Out: Opd{Idx: last + 1}, X: Opd{Idx: last}, Y: Opd{Idx: 0}})
+	}
+	return q
+}
+
+// Neighbours emits cases near c: the same function and configuration on a perturbed program.
+func Neighbours(c string, r *lib.Rand, emit func(string)) {
+	f := strings.Split(c, " ")
+	if len(f) < 2 {
+		return
+	}
+	p := Decode(f[1])
+	for k := 0; k < 6; k++ {
+		q := Perturb(r, p)
+		if r.Bool() {
+			q = Perturb(r, q)
+		}
+		g := append([]string{}, f...)
+		switch f[0] {
+		case "allocate", "interp":
+			g[1] = Encode(q)
+			emit(strings.Join(g, " "))
+		case "history":
+			g[1] = Encode(Strip(q))
+			emit(strings.Join(g, " "))
+			g[4] = strings.Join(Histories[r.Intn(len(Histories))], ",")
+			emit(strings.Join(g, " "))
+		}
+	}
 }
 
 // ---------------------------------------------------------------- independent definitions (oracle)
